@@ -97,6 +97,7 @@ REFACTORS = [
   # the corrected twin of seeded change C30_3 (ring wrap by stepping back one slot, addresses hoisted out of the loops)
   dict(id="ref:history-hoisted-wrap", patch="selftest_patches/refactor_history_hoisted_wrap.diff", silent=["C30"]),
   dict(id="ref:mocap-fast-path", patch="selftest_patches/refactor_mocap_fast_path.diff", silent=["C10", "C23", "C01", "C09"]),
+  dict(id="ref:compact-gather-scatter-form", patch="selftest_patches/refactor_compact_gather_scatter_form.diff", silent=["C38", "C12", "C11"]),
   dict(id="ref:sig-guard-forms", subs=[sub("support.py", "  if sig >= (1 << State.NSTATE):", "  if not (sig < 2 ** State.NSTATE):", nth=0)], silent=["C15"]),
 ]
 
